@@ -189,7 +189,12 @@ NAME_POOL = ['P%d', 'P%d', 'P%d', 'Sales_q%d', 'Plan_v%d', 'T%d_x', 'Rates_y202%
              'Q%dTotal', 'Step_%d', 'Tmp%d']
 
 
+LONG = 'AVeryLongPredicateNameThatGoesOnAndOnBecauseSomebodyGeneratedItFromAFilePathOrAQuestionnaire'
+
+
 def idb_name(r, i):
+  if r.random() < 0.04:
+    return '%s_%s_%d' % (LONG, LONG[:20], i)      # more than 100 characters
   return r.choice(NAME_POOL) % i
 
 
